@@ -195,9 +195,13 @@ pub fn eval_prepared(cfg: &Config, prep: &mut Prepared, body_table: &SafetyDesc,
     };
     // an unrelated robot of the same thread (other meshes poses, one obstacle through the arm, 20 cm safety) is asked
     // about the same joints first, through every entry point: no verdict may leak from one instance to another
-    DECOY.with(|d| {
-        let _ = (d.collides(&cfg.q), d.collision_details(&cfg.q), d.near(&cfg.q, &SafetyDesc { to_env: 0.2, to_robot: 0.0, special: vec![], mode: 1 }.build()));
-    });
+    // (on a quarter of the evaluations, chosen by the bits of the joint vector and the table)
+    let hq = cfg.q[1].to_bits() ^ cfg.q[2].to_bits().rotate_left(13) ^ cfg.q[4].to_bits().rotate_left(29) ^ (judged_table.to_env.to_bits() as u64).rotate_left(7) ^ (cfg.layout as u64);
+    if (hq ^ (hq >> 33)) % 4 == 0 {
+        DECOY.with(|d| {
+            let _ = (d.collides(&cfg.q), d.collision_details(&cfg.q), d.near(&cfg.q, &SafetyDesc { to_env: 0.2, to_robot: 0.0, special: vec![], mode: 1 }.build()));
+        });
+    }
     let observed: Vec<(usize, usize)> = match near_table {
         Some(t) => robot.near(&cfg.q, &t.build()),
         None => robot.collision_details(&cfg.q),
